@@ -110,6 +110,13 @@ def cases(tier, seed):
             c["holes"] = holes
             c["via"] = rng.choice(["name", "inline"])
         out.append(c)
+    # (a') text and other non-numeric arguments with bodies that work on any value, through every monadic call form
+    # (a string is one argument, also through @)
+    for a in (S("hello"), S("ab"), S("a"), S(""), C("q"), Y("sym"), L([S("ab"), S("c")])):
+        for body in (["p", "x"], ["mo", "#", ["p", "x"]], ["dy", ",", ["p", "x"], ["p", "x"]], ["mo", "|", ["p", "x"]], ["mo", ",", ["p", "x"]],
+                     ["dy", ",", ["lit", I(1)], ["p", "x"]]):
+            for form in forms1:
+                out.append({"t": "sub", "arity": 1, "body": body, "args": [a], "form": form})
     # (b) scoping / faults
     nb = 500 if tier == "quick" else 8000
     for i in range(nb):
